@@ -442,6 +442,28 @@ pub fn blocked_cycles(log: &[Call], nr: usize, block_errno: i32) -> usize {
     n
 }
 
+/// Cycles "read answered EAGAIN, ppoll really waited, the next read delivered data" (a wait in
+/// the middle of the stream, not the final wait for EOF).
+pub fn read_blocked_mid_stream(log: &[Call]) -> usize {
+    let mut n = 0;
+    let mut state = 0; // 0 idle, 1 read said EAGAIN, 2 ppoll executed after that
+    for c in log {
+        if c.nr == sc::nr::READ && c.executed {
+            if is_errno(c.ret, EAGAIN) {
+                state = 1;
+            } else {
+                if state == 2 && (c.ret as isize) > 0 {
+                    n += 1;
+                }
+                state = 0;
+            }
+        } else if c.nr == sc::nr::PPOLL && c.executed && state >= 1 {
+            state = 2;
+        }
+    }
+    n
+}
+
 /// Descriptor returned by the first successful `socket` call in a log (how the harness learns
 /// the descriptor of a tiny-std listener, which has no `AsRawFd`).
 pub fn socket_fd_from_log(log: &[Call]) -> Option<i32> {
